@@ -112,6 +112,13 @@ def pdpp_grid():
   return {'pd_sta_pp4': (M.PerDomainMetric(M.SequenceTokenAccuracy('ys', 'preds', (0, 1), None, True), 4), 'int')}
 
 
+def pdw_grid():
+  """More domains than the id dtype can count (uint8 ids, 300 domains; int8 ids, 200 domains): own small Model."""
+  from fedjax.core import metrics as M
+  return {'pdw_u8': (M.PerDomainMetric(M.Accuracy('y', 'pred'), 300, 'domw'), 'int'),
+          'pdw_i8': (M.PerDomainMetric(M.Accuracy('y', 'pred'), 200, 'domw8'), 'int')}
+
+
 # the per-domain DEFINITION: entry (d_outer, .., d_inner, k) of the wrapper = entry k of the base metric over the real
 # examples whose domain features equal (d_outer, .., d_inner).  name -> (base metric name, [(feature, num_domains)] outer first)
 PD_SPEC = {'pd_acc': ('acc', [('domain_id', ND)]), 'pd_ce': ('ce', [('dom', ND)]), 'pd_sta_pp': ('sta_c', [('domain_id', ND)]),
@@ -119,7 +126,7 @@ PD_SPEC = {'pd_acc': ('acc', [('domain_id', ND)]), 'pd_ce': ('ce', [('dom', ND)]
            'pd_cm': ('cm', [('domain_id', ND)]), 'pd_cm4': ('cm', [('domain_id', 4)]), 'pd1_cm': ('cm', [('dom1', 1)]),
            'pd1_acc': ('acc', [('dom1', 1)]), 'pd_nest_eq': ('acc', [('domb', ND), ('domain_id', ND)]),
            'pd_nest_ne': ('acc', [('dom2', 2), ('domain_id', ND)]), 'pd_nest_ce': ('ce', [('dom2', 2), ('domain_id', ND)]),
-           'pd_sta_pp4': ('sta_c', [('domain_id', 4)]), 'p_pd_acc': ('p_acc', [('domain_id', ND)])}
+           'pd_sta_pp4': ('sta_c', [('domain_id', 4)]), 'pdw_u8': ('acc', [('domw', 300)]), 'pdw_i8': ('acc', [('domw8', 200)]), 'p_pd_acc': ('p_acc', [('domain_id', ND)])}
 
 
 def plain_grid():
@@ -138,7 +145,7 @@ LOWP_NAMES = ['acc', 'top1', 'top2', 'top0', 'sta_a', 'sta_b', 'sta_c', 'sttk_a'
               'oov_b', 'len_a', 'cm', 'pd_acc', 'pd_sta_pp', 'pd_stc', 'pd_cm']
 # a second Model built from the SAME apply function and the SAME eval_metrics keys as 'plain' but other hyper-parameters
 PLAIN2_NAMES = ['q_acc', 'q_ce', 'q_top2', 'q_cm', 'q_pd_acc']
-NAMES = {'dict': None, 'plain': PLAIN_NAMES, 'plain2': PLAIN2_NAMES, 'pdpp': ['pd_sta_pp4']}
+NAMES = {'dict': None, 'plain': PLAIN_NAMES, 'plain2': PLAIN2_NAMES, 'pdpp': ['pd_sta_pp4'], 'pdw': ['pdw_u8', 'pdw_i8']}
 
 
 def _mkey(which, name):
@@ -161,7 +168,7 @@ def _setup():
     return _STATE
   import fedjax
   from fedjax.core import metrics as M
-  grid, plain, plain2, pdpp = metric_grid(), plain_grid(), plain2_grid(), pdpp_grid()
+  grid, plain, plain2, pdpp, pdw = metric_grid(), plain_grid(), plain2_grid(), pdpp_grid(), pdw_grid()
   assert list(grid) == METRIC_NAMES and list(plain) == PLAIN_NAMES and list(plain2) == PLAIN2_NAMES
   NAMES['dict'] = METRIC_NAMES
 
@@ -171,7 +178,7 @@ def _setup():
       out |= classes(m.base)
     return out
   covered = set()
-  for m, _ in list(grid.values()) + list(plain.values()) + list(pdpp.values()):
+  for m, _ in list(grid.values()) + list(plain.values()) + list(pdpp.values()) + list(pdw.values()):
     covered |= classes(m)
   all_metrics = {n for n, c in inspect.getmembers(M, inspect.isclass)
                  if issubclass(c, M.Metric) and c is not M.Metric and c.__module__ == M.__name__}
@@ -184,8 +191,8 @@ def _setup():
   def apply_plain(params, batch):
     del params
     return batch['pred']
-  _STATE['grid'] = {'dict': grid, 'plain': plain, 'plain2': plain2, 'pdpp': pdpp}
-  _STATE['apply'] = {'dict': apply_dict, 'plain': apply_plain, 'plain2': apply_plain, 'pdpp': apply_dict}
+  _STATE['grid'] = {'dict': grid, 'plain': plain, 'plain2': plain2, 'pdpp': pdpp, 'pdw': pdw}
+  _STATE['apply'] = {'dict': apply_dict, 'plain': apply_plain, 'plain2': apply_plain, 'pdpp': apply_dict, 'pdw': apply_dict}
   _STATE['model'] = {
       'dict': fedjax.Model(init=None, apply_for_train=None, apply_for_eval=apply_dict, train_loss=None,
                            eval_metrics={k: m for k, (m, _) in grid.items()}),
@@ -195,6 +202,8 @@ def _setup():
                              eval_metrics={_mkey('plain2', k): m for k, (m, _) in plain2.items()}),
       'pdpp': fedjax.Model(init=None, apply_for_train=None, apply_for_eval=apply_dict, train_loss=None,
                            eval_metrics={k: m for k, (m, _) in pdpp.items()}),
+      'pdw': fedjax.Model(init=None, apply_for_train=None, apply_for_eval=apply_dict, train_loss=None,
+                          eval_metrics={k: m for k, (m, _) in pdw.items()}),
   }
   _STATE['kept'] = None
   _STATE['evaluator'] = {}
@@ -214,7 +223,7 @@ def make_pool(seed, variant='std'):
     return {'y': p['y'].astype(np.uint8), 'pred': p['pred'].astype(np.float16), 'ys': p['ys'].astype(np.int8),
             'preds': np.asarray(jnp.asarray(p['preds'], dtype=jnp.bfloat16)), 'domain_id': p['domain_id'].astype(np.int64),
             'dom': p['dom'].astype(np.int64), 'dom1': p['dom1'].astype(np.int64), 'domb': p['domb'].astype(np.int64),
-            'dom2': p['dom2'].astype(np.int64), 'idx': p['idx']}
+            'dom2': p['dom2'].astype(np.int64), 'domw': p['domw'], 'domw8': p['domw8'], 'idx': p['idx']}
   rng = random.Random(seed * 7919 + 13)
   n = N_REAL + N_GARB + 1
   y = np.zeros(n, np.int32)
@@ -250,6 +259,8 @@ def make_pool(seed, variant='std'):
   domb[ZERO] = dom2[ZERO] = 0
   return {'y': y, 'pred': pred, 'ys': ys, 'preds': preds, 'domain_id': dom, 'dom': dom.copy(),
           'dom1': np.zeros(n, np.int32), 'domb': domb, 'dom2': dom2,
+          'domw': np.array([rng.choice([0, 1, 43, 44, 200, 255]) for _ in range(n)], np.uint8) * (np.arange(n) != ZERO).astype(np.uint8),
+          'domw8': np.array([rng.choice([0, 1, 71, 72, 127]) for _ in range(n)], np.int8) * (np.arange(n) != ZERO).astype(np.int8),
           'idx': np.arange(1, n + 1, dtype=np.int32) * (np.arange(n) != ZERO)}
 
 
@@ -264,7 +275,7 @@ def pool_stats(seed, variant='std'):
     return st['pools'][(seed, variant)]
   pool = make_pool(seed, variant)
   out = {'pool': pool}
-  for which in ('dict', 'plain', 'plain2', 'pdpp'):
+  for which in ('dict', 'plain', 'plain2', 'pdpp', 'pdw'):
     pred = st['apply'][which](None, pool)
     for name, (metric, _) in st['grid'][which].items():
       try:
@@ -327,7 +338,7 @@ def gen_batches(rng, n_real, sizes=(4, 2, 1), masked=True, fully_masked=0.12, nf
 
 
 def configs(tier, rng):
-  n = {'quick': 20, 'thorough': 800, 'search': 700}.get(tier, 20)
+  n = {'quick': 20, 'thorough': 600, 'search': 600}.get(tier, 20)
   seeds = [rng.randrange(1, 10 ** 6) for _ in range(2 if tier == 'quick' else 10)]
   out = []
   fixed = [
@@ -369,8 +380,10 @@ def configs(tier, rng):
            'kw': rng.random() < 0.25}
     if i % 6 == 2:
       cfg['model'] = 'plain2'
+    if cfg['model'] == 'dict':
+      cfg['bkind'] = 'dict'                       # (an OrderedDict batch re-traces per insertion order)
     if cfg['model'] == 'dict' and (tier == 'quick' or i % 40):
-      cfg['pkind'] = cfg['bkind'] = 'dict'        # every new params / batch container kind re-traces ~45 metric configurations
+      cfg['pkind'] = 'dict'        # every new params / batch container kind re-traces ~45 metric configurations
     elif tier == 'quick':
       cfg['pkind'] = ['tuple', 'namedtuple', 'none', 'ordered'][i % 4]
       cfg['bkind'] = 'ordered' if i % 2 else 'dict'
@@ -387,6 +400,14 @@ def configs(tier, rng):
     out.append({'pool_seed': seeds[0], 'api': ['evaluate_model', 'evaluate_batch', 'evaluator_global'][i % 3],
                 'batches': gen_batches(rng, rng.randrange(1, 5), sizes=(2,), fully_masked=0.0)[:(1 if i % 3 == 1 else None)],
                 'model': 'pdpp', 'form': 'list'})
+  # PerDomainMetric with more domains than the (uint8 / int8) domain-id dtype can count
+  for i in range({'quick': 4, 'thorough': 12, 'search': 12}.get(tier, 4)):
+    api = ['evaluate_batch', 'evaluate_model', 'evaluate_batch_nomask', 'evaluator_global'][i % 4]
+    b = gen_batches(rng, 4, sizes=(4,), masked=False) if api.startswith('evaluate_batch') else \
+        gen_batches(rng, rng.randrange(6, 11), sizes=(2,), fully_masked=0.0)
+    if api == 'evaluate_batch':
+      b = [{'rows': b[0]['rows'], 'mask': [True, True, False, True]}]
+    out.append({'pool_seed': seeds[0], 'api': api, 'batches': b, 'model': 'pdw', 'form': 'list'})
   # narrow dtypes for the features: integer-valued metrics only (cross-entropy in float16 is not comparable at 1e-5)
   for i in range({'quick': 2, 'thorough': 30, 'search': 40}.get(tier, 2)):
     out.append({'pool_seed': seeds[0], 'api': ['evaluate_model', 'evaluator_global', 'evaluate_batch'][i % 3],
@@ -1100,8 +1121,16 @@ def _oracle(case, obs):
         else:
           want = sum(r[k] for r in mine)
         got = res[pos]
+        fields_bad = False
+        if obs.get('stat') is not None:          # evaluate_batch exposes the Stat: its fields must be the per-domain sums
+          if pd['base_kind'] == 'mean':
+            fa, fw_ = obs['stat'][2 * pos], obs['stat'][2 * pos + 1]
+            fields_bad = fa is None or fw_ is None or abs(fa - sa) > tol * (1 + abs(sa)) or abs(fw_ - sw) > tol * (1 + abs(sw))
+          else:
+            fa = obs['stat'][pos]
+            fields_bad = fa is None or abs(fa - want) > tol * (1 + abs(want))
         pos += 1
-        if got is None or abs(got - want) > tol * (1 + abs(want)):
+        if got is None or abs(got - want) > tol * (1 + abs(want)) or fields_bad:
           out.append(('per-domain-definition', f'{name}: domains {ids}, base entry {k}: {got}, the base metric over the examples of that domain gives {want}'))
           break
       else:
